@@ -290,11 +290,30 @@ func (s *IndexedState) add(ctx *Context, id string, x Map) (string, error) {
 	if err != nil {
 		return id, err
 	}
+	// If a rule is currently stored under this id, remove its
+	// pattern from the rule index before the id is given to
+	// something else (a rule with another 'when', a scheduled
+	// rule or a plain fact).
+	var oldRule Map
+	if old, have := s.IdToFact[id]; have {
+		if oldRule, _ = ExtractRule(ctx, old, false); oldRule != nil {
+			if err = s.unindexRule(ctx, id, oldRule); err != nil {
+				return "", err
+			}
+		}
+	}
+
 	if rule != nil {
 		// ToDo: Metric(ctx, "RuleUpdated", "location", s.Name, "ruleId", id)
 		Log(DEBUG, ctx, "IndexedState.add", "state", s.Name, "rule", rule, "ruleId", id)
 		if _, scheduled := rule["schedule"]; !scheduled {
 			if err = s.indexRule(ctx, id, rule); err != nil {
+				if oldRule != nil {
+					// The stored rule stays; keep it findable.
+					if _, scheduled := oldRule["schedule"]; !scheduled {
+						s.indexRule(ctx, id, oldRule)
+					}
+				}
 				return "", err
 			}
 		}
@@ -349,13 +368,6 @@ func (s *IndexedState) indexRule(ctx *Context, id string, rule map[string]interf
 	patterns := GetRulePatterns(ctx, rule)
 	if nil == patterns {
 		return NewSyntaxError("No 'when' in rule.")
-	}
-
-	_, have := s.IdToFact[id]
-	if have {
-		if err := s.unindexRule(ctx, id, rule); err != nil {
-			return err
-		}
 	}
 
 	for _, m := range patterns {
